@@ -73,7 +73,7 @@ var profiles = map[string]Profile{
 	"spend-shared": {Name: "spend-shared", MaxClients: 5, MaxOps: 4, MaxGens: 1, MaxLedgers: 2, WKind: [5]int{14, 1, 1, 1, 0},
 		Tpls: []int{tplOrderedVars, tplOrderedVars, tplOrderedVars, tplVar}, WorldVarPct: 25, NoBuggify: true, BigCache: true,
 		CancelBlockedPct: 5, IKPool: 2, RefPool: 2, TargetPool: 3, FundMax: 10, AmountMax: 12},
-	"spend-faults": {Name: "spend-faults", MaxClients: 5, MaxOps: 3, MaxGens: 3, MaxLedgers: 2, WKind: [5]int{12, 3, 2, 2, 0},
+	"spend-faults": {Name: "spend-faults", MaxClients: 5, MaxOps: 3, MaxGens: 3, MaxLedgers: 2, WKind: [5]int{12, 3, 2, 2, 0}, ClockPct: 10,
 		Tpls:     []int{tplLit, tplVar, tplMeta, tplOrdered, tplMax, tplOverdraftBounded, tplAll, tplBalance, tplTwoSends, tplOrderedVars},
 		CrashPct: 60, WriteFailPct: 20, ReadFailPct: 20, CancelBlockedPct: 20, CancelPct: 5, IKPool: 2, RefPool: 2, TargetPool: 3, FundMax: 12, AmountMax: 12},
 	// C05: mixed writers, batch boundaries everywhere, restarts
@@ -92,28 +92,28 @@ var profiles = map[string]Profile{
 		Tpls:  []int{tplWorld, tplLit, tplVar, tplOverdraftBounded, tplAll, tplSetAccountMeta, tplMeta},
 		IKPct: 15, RefPct: 15, DryPct: 5, TSPct: 20, IKPool: 3, RefPool: 3, TargetPool: 4, FundMax: 20, AmountMax: 8},
 	// C07
-	"idem": {Name: "idem", BigIDs: true, MaxClients: 5, MaxOps: 3, MaxGens: 4, MaxLedgers: 2, WKind: [5]int{6, 3, 3, 3, 2},
+	"idem": {Name: "idem", BigIDs: true, MaxClients: 5, MaxOps: 3, MaxGens: 4, MaxLedgers: 2, WKind: [5]int{6, 3, 3, 3, 2}, ClockPct: 15,
 		Tpls:  []int{tplWorld, tplLit, tplVar, tplOverdraftUnbounded},
 		IKPct: 80, RefPct: 5, DryPct: 3, CrashPct: 60, WriteFailPct: 20, ReadFailPct: 10, IKPool: 2, RefPool: 2, TargetPool: 2, CancelBlockedPct: 20, CancelPct: 6, FundMax: 30, AmountMax: 5},
 	"idem-nofault": {Name: "idem-nofault", MaxClients: 5, MaxOps: 3, MaxGens: 3, MaxLedgers: 1, WKind: [5]int{6, 3, 3, 3, 2},
 		Tpls:  []int{tplWorld, tplLit, tplVar, tplOverdraftUnbounded},
 		IKPct: 80, RefPct: 5, DryPct: 3, IKPool: 2, RefPool: 2, TargetPool: 2, FundMax: 30, AmountMax: 5},
 	// C08 cache clause: few texts, tiny cache, two ledgers sharing the compiler
-	"cache": {Name: "cache", MaxClients: 6, MaxOps: 4, MaxGens: 2, MaxLedgers: 2, WKind: [5]int{10, 6, 1, 1, 0},
+	"cache": {Name: "cache", MaxClients: 6, MaxOps: 4, MaxGens: 2, MaxLedgers: 2, WKind: [5]int{10, 6, 1, 1, 0}, ClockPct: 10,
 		Tpls:  []int{tplWorld, tplOverdraftUnbounded, tplSetAccountMeta, tplVar, tplLit, tplWorld, tplOverdraftUnbounded, tplOrderedVars, tplArith, tplPortionVar, tplMetaVar, tplAssetVar, tplSaveVar, tplRaw},
 		IKPct: 0, RefPct: 0, DryPct: 5, IKPool: 2, RefPool: 2, TargetPool: 3, FundMax: 100, AmountMax: 4},
 	"cache-shared": {Name: "cache-shared", MaxClients: 5, MaxOps: 4, MaxGens: 2, MaxLedgers: 2, WKind: [5]int{14, 2, 0, 1, 0},
 		Tpls: []int{tplOrderedVars, tplVar, tplArith, tplArith, tplPortionVar, tplMetaVar, tplAssetVar, tplAssetVar, tplSaveVar, tplOverdraftUnbounded, tplRaw, tplRaw}, WorldVarPct: 25, BigCache: true,
 		IKPool: 2, RefPool: 2, TargetPool: 3, FundMax: 100, AmountMax: 4},
 	// C10
-	"revert": {Name: "revert", BigIDs: true, MaxClients: 5, MaxOps: 3, MaxGens: 3, MaxLedgers: 2, WKind: [5]int{4, 4, 10, 1, 0},
+	"revert": {Name: "revert", BigIDs: true, MaxClients: 5, MaxOps: 3, MaxGens: 3, MaxLedgers: 2, WKind: [5]int{4, 4, 10, 1, 0}, ClockPct: 10,
 		Tpls:  []int{tplLit, tplVar, tplAll, tplTwoSends, tplSplit, tplWorld},
 		IKPct: 15, RefPct: 0, DryPct: 3, CrashPct: 40, WriteFailPct: 10, IKPool: 2, RefPool: 2, TargetPool: 3, CancelBlockedPct: 20, CancelPct: 6, FundMax: 12, AmountMax: 10},
 	"revert-nofault": {Name: "revert-nofault", MaxClients: 5, MaxOps: 3, MaxGens: 2, MaxLedgers: 1, WKind: [5]int{4, 4, 10, 1, 0},
 		Tpls:  []int{tplLit, tplVar, tplAll, tplTwoSends, tplSplit, tplWorld},
 		IKPct: 15, RefPct: 0, DryPct: 3, IKPool: 2, RefPool: 2, TargetPool: 3, FundMax: 12, AmountMax: 10},
 	// C11
-	"ref": {Name: "ref", MaxClients: 5, MaxOps: 3, MaxGens: 3, MaxLedgers: 2, WKind: [5]int{8, 5, 1, 1, 0},
+	"ref": {Name: "ref", MaxClients: 5, MaxOps: 3, MaxGens: 3, MaxLedgers: 2, WKind: [5]int{8, 5, 1, 1, 0}, ClockPct: 10,
 		Tpls:  []int{tplWorld, tplLit, tplVar, tplAll},
 		IKPct: 5, RefPct: 85, DryPct: 3, CrashPct: 40, WriteFailPct: 10, ReadFailPct: 10, IKPool: 2, RefPool: 2, TargetPool: 2, CancelBlockedPct: 20, CancelPct: 6, FundMax: 8, AmountMax: 10},
 	"ref-nofault": {Name: "ref-nofault", MaxClients: 5, MaxOps: 3, MaxGens: 2, MaxLedgers: 1, WKind: [5]int{8, 5, 1, 1, 0},
@@ -122,14 +122,14 @@ var profiles = map[string]Profile{
 	// C13: every entry kind gets to be the last entry at a restart and the target of an IK retry
 	"audit": {Name: "audit", BigIDs: true, MaxClients: 3, MaxOps: 3, MaxGens: 4, MaxLedgers: 1, WKind: [5]int{4, 4, 3, 4, 4},
 		Tpls:  []int{tplWorld, tplLit, tplVar, tplSetAccountMeta, tplOverdraftUnbounded},
-		IKPct: 40, RefPct: 20, DryPct: 0, TSPct: 60, BigPct: 40, CrashPct: 70, ClockPct: 40, IKPool: 3, RefPool: 3, TargetPool: 4, CancelBlockedPct: 20, CancelPct: 6, FundMax: 30, AmountMax: 5},
+		IKPct: 40, RefPct: 20, DryPct: 0, TSPct: 60, BigPct: 40, CrashPct: 70, WriteFailPct: 25, ReadFailPct: 10, ClockPct: 60, IKPool: 3, RefPool: 3, TargetPool: 4, CancelBlockedPct: 20, CancelPct: 6, FundMax: 30, AmountMax: 5},
 	// C16
-	"events": {Name: "events", BigIDs: true, CrashPct: 45, MaxClients: 5, MaxOps: 3, MaxGens: 3, MaxLedgers: 2, WKind: [5]int{5, 3, 5, 3, 3},
+	"events": {Name: "events", BigIDs: true, CrashPct: 45, MaxClients: 5, MaxOps: 3, MaxGens: 3, MaxLedgers: 2, WKind: [5]int{5, 3, 5, 3, 3}, ClockPct: 25,
 		Tpls:  []int{tplWorld, tplLit, tplVar, tplSetAccountMeta, tplAll},
 		IKPct: 25, RefPct: 5, DryPct: 20, CancelPct: 8, CancelBlockedPct: 25, IKPool: 2, RefPool: 2, TargetPool: 3, FundMax: 20, AmountMax: 6},
 	// C14 invariant form under concurrency
-	"preview": {Name: "preview", MaxClients: 4, MaxOps: 4, MaxGens: 2, MaxLedgers: 1, WKind: [5]int{6, 3, 3, 3, 3},
-		Tpls:  []int{tplWorld, tplLit, tplVar, tplAll, tplSetAccountMeta},
+	"preview": {Name: "preview", MaxClients: 4, MaxOps: 4, MaxGens: 2, MaxLedgers: 1, WKind: [5]int{6, 3, 3, 3, 3}, ClockPct: 15,
+		Tpls:  []int{tplWorld, tplLit, tplVar, tplAll, tplSetAccountMeta, tplBalance, tplOverdraftUnbounded, tplMeta},
 		IKPct: 30, RefPct: 30, DryPct: 45, IKPool: 1, RefPool: 1, TargetPool: 2, FundMax: 20, AmountMax: 6},
 }
 
@@ -235,6 +235,11 @@ func genOp(t *rapid.T, p *Profile, cfg *Config) Op {
 		}
 		if pct(t, 15, "oddMeta") {
 			op.Value = rapid.SampledFrom(odd).Draw(t, "oddMetaV")
+		}
+		// request metadata under the key some scripts set themselves (set_tx_meta("via", ...)):
+		// those requests are refused late, after the program has run
+		if pct(t, 6, "metaClash") {
+			op.MetaKey = "via"
 		}
 	case "postings":
 		n := rapid.IntRange(1, 3).Draw(t, "npost")
@@ -369,6 +374,12 @@ func GenInput(t *rapid.T, p *Profile) *Input {
 	if pct(t, p.ClockPct, "hasClock") {
 		n := rapid.IntRange(1, 3).Draw(t, "nclock")
 		for i := 0; i < n; i++ {
+			if rapid.Bool().Draw(t, "clockNs") {
+				// off the microsecond grid: what the engine stamps must still survive storage
+				in.Faults = append(in.Faults, Fault{Kind: "clockns", Step: rapid.IntRange(1, 150).Draw(t, "clockStep"),
+					Arg: rapid.SampledFrom([]int64{1, 7, 499, 500, 501, 999, 1001, 123456789, 999999999}).Draw(t, "clockJumpNs")})
+				continue
+			}
 			in.Faults = append(in.Faults, Fault{Kind: "clock", Step: rapid.IntRange(1, 150).Draw(t, "clockStep"),
 				Arg: rapid.SampledFrom([]int64{1, 999, 1000, 1000000, 61000000, 3600000000}).Draw(t, "clockJump")})
 		}
